@@ -149,6 +149,9 @@ Proof.
   - revert H. generalize s s' r. apply WB_ev, WB_upd; keeps.
 Qed.
 
+Lemma WB_refuse_held : forall d, WB (refuse_held shipped d).
+Proof. intro d. unfold refuse_held; simpl. apply WB_ev, WB_guard. Qed.
+
 Lemma WB_stored_rows : forall d, WB (stored_rows d).
 Proof. intro d; apply WB_upd; keeps. Qed.
 
@@ -178,7 +181,7 @@ Qed.
 Ltac wb :=
   repeat first
     [ apply WB_bind | apply WB_ev | apply WB_ev_absorb | apply WB_ret | apply WB_raise | apply WB_guard | apply WB_swallow
-    | apply WB_with_reg | apply WB_with_ds | apply WB_reg_undo | apply WB_load_dc | apply WB_stored_rows
+    | apply WB_refuse_held | apply WB_with_reg | apply WB_with_ds | apply WB_reg_undo | apply WB_load_dc | apply WB_stored_rows
     | apply WB_remove_ds | apply WB_transfer | apply WB_del_files | apply WB_if
     | (apply WB_upd; keeps) ].
 
@@ -215,7 +218,7 @@ Proof.
     repeat first
     [ apply WB_do_trash | apply WB_do_empty_trash | apply WB_xfer_ds
     | apply WB_bind | apply WB_ev | apply WB_ev_absorb | apply WB_ret | apply WB_raise | apply WB_guard | apply WB_swallow
-    | apply WB_with_reg | apply WB_with_ds | apply WB_reg_undo | apply WB_load_dc | apply WB_stored_rows
+    | apply WB_refuse_held | apply WB_with_reg | apply WB_with_ds | apply WB_reg_undo | apply WB_load_dc | apply WB_stored_rows
     | apply WB_remove_ds | apply WB_transfer | apply WB_del_files
     | (apply WB_upd; keeps) ].
 Qed.
@@ -286,7 +289,7 @@ Lemma ingest_registry_atomic_p : forall m d s s' h,
 Proof.
   intros m d s s' h H C. simpl in H. unfold do_ingest in H. eapply butler_txn_atomic; eauto.
   repeat first [ apply WB_bind | apply WB_ev | apply WB_ret | apply WB_guard | apply WB_with_ds | apply WB_transfer
-               | apply WB_load_dc | apply WB_stored_rows | (apply WB_upd; keeps) ].
+               | apply WB_refuse_held | apply WB_load_dc | apply WB_stored_rows | (apply WB_upd; keeps) ].
 Qed.
 
 Lemma transfer_registry_atomic_p : forall d s s' h,
@@ -302,7 +305,7 @@ Lemma import_registry_atomic_p : forall d s s' h,
 Proof.
   intros d s s' h H C. simpl in H. unfold do_import in H. eapply butler_txn_atomic; eauto.
   repeat first [ apply WB_bind | apply WB_ev | apply WB_ret | apply WB_guard | apply WB_with_ds | apply WB_reg_undo
-               | apply WB_load_dc | apply WB_stored_rows | (apply WB_upd; keeps) ].
+               | apply WB_refuse_held | apply WB_load_dc | apply WB_stored_rows | (apply WB_upd; keeps) ].
 Qed.
 
 (* the stacks after ANY program, outcome and fault: SQL blocks all closed again, datastore pointer back where it was *)
@@ -335,10 +338,11 @@ Proof. intros m s s' H; unfold swallow; rewrite H; reflexivity. Qed.
 (* ---------------------------------------------------------------------------------------------------------- *)
 (* Part 3: witnesses (vm_compute).  e0 = the staging area used by the harness. *)
 Definition e0 : files := [(0, 100); (1, 101); (2, 102); (3, 103)].
-Definition nofix_ptr := mkcfg false true true true.
-Definition nofix_sp := mkcfg true false true true.
-Definition nofix_dc := mkcfg true true false true.
-Definition nofix_et := mkcfg true true true false.
+Definition nofix_ptr := mkcfg false true true true true.
+Definition nofix_sp := mkcfg true false true true true.
+Definition nofix_dc := mkcfg true true false true true.
+Definition nofix_et := mkcfg true true true false true.
+Definition nofix_ri := mkcfg true true true true false.
 Definition with_fuse (j : nat) (s : st) := set_fuse (Some j) s.
 
 Definition prog_ptr := PBlock [POp (Put 0 1); PTry (PBlock [PFail]); PFail].
